@@ -399,6 +399,9 @@ def run(ctx):
     _premises.density(ctx)
     _premises.deep_copies(ctx)
     _premises.tree_editor(ctx)
+    # "finishes without an exception": a threshold chain that does not cover the unit interval leaves the proposed
+    # tree unbound; a proposal density that degenerates gives nan weights (same rule objects as C08.B / S / F)
+    _premises.proposal_chains(ctx)
 
 
 _PG = "phyclone/mcmc/particle_gibbs.py"
